@@ -67,6 +67,9 @@ type op struct {
 	Mode  string `json:"m,omitempty"`
 	On    bool   `json:"on,omitempty"`
 	Mark  string `json:"mark,omitempty"`
+	// Rank addresses a shard by its position in the HRW order of object ID
+	// (loseblob, rmode): resolved when the op runs.
+	Rank int `json:"rank,omitempty"`
 }
 
 func (o op) String() string {
@@ -81,6 +84,10 @@ func (o op) String() string {
 		return fmt.Sprintf("%s(s%d,%v)", o.K, o.Shard, o.On)
 	case "gc":
 		return fmt.Sprintf("gc(s%d)", o.Shard)
+	case "loseblob":
+		return fmt.Sprintf("loseblob(o%d on its HRW shard #%d)", o.ID, o.Rank)
+	case "rmode":
+		return fmt.Sprintf("mode(HRW shard #%d of o%d,%s)", o.Rank, o.ID, o.Mode)
 	}
 	return o.K
 }
@@ -138,7 +145,7 @@ func gen(t *rapid.T) kase {
 	}
 	n := k.N0
 	nops := rapid.IntRange(4, 24).Draw(t, "nops")
-	kinds := []string{"put", "put", "put", "put", "delete", "drop", "tomb", "mode", "mode", "mode", "failput", "failread", "failread", "failexists", "addshard", "gc"}
+	kinds := []string{"put", "put", "put", "put", "delete", "drop", "tomb", "mode", "mode", "mode", "failput", "failread", "failread", "failexists", "addshard", "gc", "loseblob"}
 	var put []int
 	for len(k.Ops) < nops {
 		o := op{K: rapid.SampledFrom(kinds).Draw(t, "op")}
@@ -167,6 +174,9 @@ func gen(t *rapid.T) kase {
 			o.On = rapid.IntRange(0, 2).Draw(t, "on") != 0
 		case "gc":
 			o.Shard = rapid.IntRange(0, n-1).Draw(t, "shard")
+		case "loseblob":
+			o.ID = pickPut("lose")
+			o.Rank = rapid.IntRange(0, 1).Draw(t, "rank")
 		case "addshard":
 			if n >= maxShard {
 				continue
@@ -174,6 +184,39 @@ func gen(t *rapid.T) kase {
 			n++
 		}
 		k.Ops = append(k.Ops, o)
+	}
+	// Some histories get the "binary lost, re-uploaded elsewhere" story merged in
+	// (order preserving): the object is stored on its first HRW shard, the blob
+	// file under that shard is lost (metadata stays), the shard is taken out of
+	// write service, a new upload lands on the next shard, the first shard comes
+	// back, and the shard with the good copy goes degraded.
+	if rapid.IntRange(0, 9).Draw(t, "lostblob-story") < 3 {
+		id := rapid.SampledFrom(dataIDs).Draw(t, "story-obj")
+		story := []op{
+			{K: "put", ID: id},
+			{K: "loseblob", ID: id, Rank: 0},
+			{K: "rmode", ID: id, Rank: 0, Mode: rapid.SampledFrom([]string{"degro", "deg", "ro"}).Draw(t, "story-out")},
+			{K: "put", ID: id},
+			{K: "rmode", ID: id, Rank: 0, Mode: "rw"},
+			{K: "rmode", ID: id, Rank: 1, Mode: rapid.SampledFrom([]string{"degro", "degro", "deg"}).Draw(t, "story-deg")},
+		}
+		pos := make([]int, len(story))
+		for i := range pos {
+			pos[i] = rapid.IntRange(0, len(k.Ops)).Draw(t, "story-pos")
+		}
+		sort.Ints(pos)
+		var merged []op
+		si := 0
+		for i := 0; i <= len(k.Ops); i++ {
+			for si < len(story) && pos[si] == i {
+				merged = append(merged, story[si])
+				si++
+			}
+			if i < len(k.Ops) {
+				merged = append(merged, k.Ops[i])
+			}
+		}
+		k.Ops = merged
 	}
 	return k
 }
@@ -191,6 +234,9 @@ type state struct {
 	// read fault the object must not be read (whatever the modes were when the
 	// removal was acknowledged – a removal that cannot be applied must fail)
 	acked map[int]string
+	// lost[id]: the blob of id was removed under some shard that keeps its
+	// metadata (then Put may answer nil "exists" although no blob is left)
+	lost map[int]bool
 	// marked[id]: gone because of a Delete(default) mark (not a tombstone, not a drop)
 	labels map[string]bool
 	trace  []string
@@ -276,7 +322,7 @@ func (s *state) exec(t *rapid.T, i int, o op) {
 		}
 		s.trace = append(s.trace, fmt.Sprintf("%s [%s] -> %s; holders %v -> %v", step, s.modesStr(), short(err), before, after))
 		if err == nil {
-			if len(after) == 0 {
+			if len(after) == 0 && !s.lost[o.ID] {
 				s.failf(t, "%s: Put returned nil but no shard holds the object", step)
 			}
 			if storedAnew {
@@ -368,6 +414,31 @@ func (s *state) exec(t *rapid.T, i int, o op) {
 	case "gc":
 		s.e.GC(o.Shard)
 		s.trace = append(s.trace, step)
+	case "loseblob", "rmode":
+		order := s.e.HRW(s.addr(o.ID).Object())
+		if o.Rank >= len(order) {
+			s.trace = append(s.trace, step+" -> skipped, no such shard")
+			break
+		}
+		sh := order[o.Rank]
+		if o.K == "rmode" {
+			err := s.e.SetMode(sh, modes[o.Mode])
+			s.trace = append(s.trace, fmt.Sprintf("%s = mode(s%d,%s) -> %s", step, sh, o.Mode, short(err)))
+			break
+		}
+		// the file disappears under the shard (media loss / operator mistake);
+		// only a shard that indexed the object is interesting
+		if !s.e.Phys(sh, s.addr(o.ID)) || !s.indexed[sh][o.ID] {
+			s.trace = append(s.trace, fmt.Sprintf("%s = s%d -> skipped, no indexed copy there", step, sh))
+			break
+		}
+		if err := s.e.Sh[sh].FS.Storage.Delete(s.addr(o.ID)); err != nil {
+			s.trace = append(s.trace, fmt.Sprintf("%s = s%d -> blob delete failed: %v", step, sh, err))
+			break
+		}
+		s.lost[o.ID] = true
+		s.labels["blob-lost-under-metadata"] = true
+		s.trace = append(s.trace, fmt.Sprintf("%s = s%d: blob file removed, metadata kept", step, sh))
 	case "addshard":
 		n := len(s.e.Sh)
 		if _, err := s.e.AddShard(fmt.Sprintf("%s/s%d", s.e.Sh[0].Dir+"-more", n), engx.MkID(n, s.k.Hashes[n])); err != nil {
@@ -543,7 +614,7 @@ func run(t *rapid.T, rec *ev.Recorder, k kase) ([]string, bool) {
 	}
 	defer e.Close()
 	e.LogCalls = true
-	st := &state{k: k, e: e, attempted: map[int]bool{}, gone: map[int]string{}, acked: map[int]string{}, labels: map[string]bool{}, known: rec.Known}
+	st := &state{k: k, e: e, attempted: map[int]bool{}, gone: map[int]string{}, acked: map[int]string{}, lost: map[int]bool{}, labels: map[string]bool{}, known: rec.Known}
 	for range e.Sh {
 		st.indexed = append(st.indexed, map[int]bool{})
 	}
